@@ -185,8 +185,22 @@ def expected_reverse(content_bytes):
 
 
 # text-mode handles whose encoding is not plain UTF-8 (see known_findings.json): every line is decoded as UTF-8
-ENCODING_IGNORED = ('text-file-utf-8-sig-bom', 'text-file-latin-1', 'text-file-utf-16')
-ENCODING_IGNORED_SIG = 'reverse_iter_lines:text-mode:handle-encoding-ignored'
+ENCODING_IGNORED_SIG = 'reverse_iter_lines:text-mode:encoding-not-decodable-line-by-line'
+
+
+def line_by_line_undecodable(kind, content):
+    """The recorded finding (known_findings.json): the lines are cut out of the raw bytes at b'\\n' and decoded one by
+    one with the handle's encoding.  That cannot work for UTF-16/32 (a line break is two / four bytes there), and under
+    utf-8-sig every line that begins with U+FEFF loses it, not only the first of the file."""
+    if kind == 'text-file-utf-16':
+        return True
+    if kind in ('text-file-utf-8-sig', 'text-file-utf-8-sig-bom'):
+        lines = content.replace('\r\n', '\n').split('\n')
+        later = lines if kind.endswith('-bom') else lines[1:]
+        if kind.endswith('-bom') and content == '':
+            return True         # nothing but the byte-order mark: read as one empty line instead of no line
+        return any(ln.startswith('\ufeff') for ln in later)
+    return False
 
 
 def check_rev(c, st):
@@ -278,12 +292,12 @@ def check_rev(c, st):
                             pass
                     want = want_text
             except Exception as e:
-                if kind in ENCODING_IGNORED or (kind == 'text-file-utf-8-sig' and c['content'].startswith('\ufeff')):
+                if line_by_line_undecodable(kind, c['content']):
                     return (ENCODING_IGNORED_SIG, 'reverse_iter_lines(%r as %s, blocksize=%d) raised %r' % (c['content'], kind, bs, e))
                 return ('reverse_iter_lines-raised:%s' % type(e).__name__,
                         'reverse_iter_lines(%r as %s, blocksize=%d) raised %r' % (c['content'], kind, bs, e))
             results[(kind, bs)] = out
-            if out != want and (kind in ENCODING_IGNORED or (kind == 'text-file-utf-8-sig' and c['content'].startswith('\ufeff'))):
+            if out != want and line_by_line_undecodable(kind, c['content']):
                 return (ENCODING_IGNORED_SIG, 'reverse_iter_lines(%r as %s, blocksize=%d) = %r, the handle itself reads %r'
                         % (c['content'], kind, bs, out, want))
             if out != want:
